@@ -161,6 +161,13 @@ func credKinds(repo string) []credKind {
 	c2 := mustPair(resources.ClientTest02Crt, resources.ClientTest02Key)
 	c3 := mustPair(resources.ClientTest03Crt, resources.ClientTest03Key)
 	s2 := mustPair(resources.SignerCerts[2], resources.SignerKeys[2])
+	// a valid leaf followed by further certificates the authority never issued: only the leaf is verified, so only
+	// the leaf's name may be believed
+	ch2 := tls.Certificate{Certificate: [][]byte{c2.Certificate[0], ss.Certificate[0]}, PrivateKey: c2.PrivateKey}
+	ch3 := tls.Certificate{Certificate: [][]byte{c3.Certificate[0], oc.Certificate[0], ss.Certificate[0]}, PrivateKey: c3.PrivateKey}
+	chs := tls.Certificate{Certificate: [][]byte{s2.Certificate[0], ss.Certificate[0]}, PrivateKey: s2.PrivateKey}
+	kinds = append(kinds, credKind{"chain:client-test02+client-test01", tlsOpt(&ch2)}, credKind{"chain:client-test03+client-test01+client-test01", tlsOpt(&ch3)},
+		credKind{"chain:signer-test02+client-test01", tlsOpt(&chs)})
 	kinds = append(kinds, credKind{"valid:client-test01", tlsOpt(&c1)}, credKind{"valid:client-test02", tlsOpt(&c2)},
 		credKind{"valid:client-test03", tlsOpt(&c3)}, credKind{"valid:signer-test02", tlsOpt(&s2)})
 	return kinds
